@@ -191,6 +191,34 @@ def sc_connect_same(fs: Any, k: int = 2):
     return [body(i) for i in range(k)], check
 
 
+def sc_connect_builtin_schema(fs: Any):
+    """One session's connect creates a new database while another connects to the same database naming a schema the engine
+    provides from the moment the database is attached (information_schema, main): the second session, once connected, finds the
+    database completely set up."""
+    def creator() -> None:
+        c = fs.connect("freshdb", "app")
+        c.cursor().execute("CREATE TABLE NOTES (ID INT, S VARCHAR(7)) COMMENT = 'notes'")
+        c.cursor().execute("INSERT INTO NOTES VALUES (1, 'x')")
+
+    def other(schema: str) -> Callable[[], None]:
+        def f() -> None:
+            c = fs.connect("freshdb", schema)
+            got = c.cursor().execute("SELECT database_name FROM information_schema.databases WHERE database_name = 'FRESHDB'").fetchall()
+            assert got == [("FRESHDB",)], f"information_schema.databases answers {got}"
+            c.cursor().execute("CREATE SCHEMA IF NOT EXISTS FRESHDB.SIDE")
+            c.cursor().execute(f"CREATE TABLE FRESHDB.SIDE.T_{schema.upper()} (ID INT, S VARCHAR(9)) COMMENT = 'side'")
+            cm = c.cursor().execute(f"SELECT comment FROM FRESHDB.information_schema.tables WHERE table_name = 'T_{schema.upper()}'").fetchall()
+            assert cm == [("side",)], f"comment of the table just made reads {cm}"
+        return f
+
+    def check(env: core.Env, sched: Sched, name: str) -> None:
+        env.count("cmp_final_state")
+        snap = core.snapshot(fs, include_fs=False)
+        if sched.errors[0] is None and snap["rows"].get("FRESHDB.APP.NOTES") != {"(1, 'x')": 1}:
+            env.witness(f"C19/{name}/final-state", f"NOTES = {snap['rows'].get('FRESHDB.APP.NOTES')} trace={sched.trace}")
+    return [creator, other("information_schema"), other("main")], check
+
+
 def sc_connect_diff(fs: Any):
     def body(i: int) -> Callable[[], None]:
         def f() -> None:
@@ -601,6 +629,7 @@ SCENARIOS: dict[str, Callable] = {
     "connect-same-db-schema": sc_connect_same,
     "connect-same-db-schema-x3": lambda fs: sc_connect_same(fs, 3),
     "connect-different-dbs": sc_connect_diff,
+    "connect-new-database-vs-connect-to-its-builtin-schemas": sc_connect_builtin_schema,
     "inserts-shared-table": sc_inserts,
     "inserts-shared-table-x3": lambda fs: sc_inserts(fs, 3),
     "create-table-vs-metadata-reader": sc_create_vs_reader,
